@@ -37,6 +37,12 @@ def Iter.trace (it : Iter) : List Call → List (Obs Pos)
 
 def Iter.run (it : Iter) (calls : List Call) : Iter := calls.foldl Iter.step it
 
+/-- the user loop `for ; it.Valid(); it.Next() { … it.Key(), position of it.Value() … }`
+    (at most `fuel` rounds) -/
+def Iter.collect : Nat → Iter → List (Option Key × Option Pos)
+  | 0, _ => []
+  | f + 1, it => if it.obs.valid then (it.obs.key, it.obs.value) :: collect f it.next else []
+
 namespace IterP
 
 /-! ## list facts -/
@@ -252,6 +258,61 @@ theorem CSim.run {L : List (Key × Pos)} {pre : Key} {rev : Bool} (hs : Sorted r
     intro it a h hadm
     obtain ⟨h1, h2⟩ := admissible_cons hadm
     exact ih (h.step hs c h1) h2
+
+theorem CSim.collect {L : List (Key × Pos)} {pre : Key} {rev : Bool} (f : Nat) :
+    ∀ {it : Iter} {a : Abs Pos}, CSim L pre rev it a → (a.A.drop a.i).length ≤ f →
+      it.collect f = seen (a.A.drop a.i) := by
+  induction f with
+  | zero =>
+    intro it a _ hf
+    have : a.A.drop a.i = [] := List.length_eq_zero_iff.mp (by omega)
+    simp only [Iter.collect, this, seen, List.map_nil]
+  | succ f ih =>
+    intro it a h hf
+    have ho := h.obs
+    cases hR : a.A.drop a.i with
+    | nil =>
+      have hv : a.obs.valid = false := by
+        have := List.drop_eq_nil_iff.mp hR
+        simp only [Abs.obs, Abs.valid, decide_eq_false_iff_not]
+        omega
+      simp only [Iter.collect, ho, hv, seen, List.map_nil]
+      rfl
+    | cons x R' =>
+      obtain ⟨_, _, hd⟩ := abs_next_drop hR
+      have hx : a.A[a.i]? = some x := by rw [← List.head?_drop, hR]; rfl
+      have hlt : a.i < a.A.length := by
+        have : a.A.drop a.i ≠ [] := by rw [hR]; simp
+        have := mt List.drop_eq_nil_iff.mpr this
+        omega
+      have hv : a.obs.valid = true := by simp only [Abs.obs, Abs.valid, decide_eq_true_eq]; exact hlt
+      have hk : a.obs.key = some x.1 := by simp only [Abs.obs, Abs.key, hx, Option.map_some]
+      have hval : a.obs.value = some x.2 := by simp only [Abs.obs, Abs.value, hx, Option.map_some]
+      have := ih h.next (by rw [hd]; rw [hR] at hf; simpa using hf)
+      simp only [Iter.collect, ho, hv, hk, hval, if_true, this, hd, seen, List.map_cons]
+
+/-- from any state reached by an admissible call sequence, `Rewind` and the `Valid / Next` loop
+    enumerate exactly the snapshot items with the prefix, in iteration order -/
+theorem complete_engine {L : List (Key × Pos)} {pre : Key} {rev : Bool} (hs : Sorted rev L) {it : Iter}
+    {a : Abs Pos} (h : CSim L pre rev it a) (calls : List Call) (hadm : a.admissible calls = true)
+    (fuel : Nat) (hfuel : a.A.length ≤ fuel) :
+    ((it.run calls).rewind.collect fuel) = a.A.map (fun x => (some x.1, some x.2)) := by
+  have h1 := (h.run hs calls hadm).rewind
+  have hA : ∀ (cs : List Call) (b : Abs Pos), (b.run cs).A = b.A := by
+    intro cs
+    induction cs with
+    | nil => intro b; rfl
+    | cons c cs ih =>
+      intro b
+      simp only [Abs.run, List.foldl_cons] at ih ⊢
+      rw [ih]
+      cases c
+      · rfl
+      · simp only [Abs.step, Abs.next]; split <;> rfl
+      · rfl
+  have := CSim.collect fuel h1 (by
+    simp only [Abs.rewind, List.drop_zero, hA]; exact hfuel)
+  simpa [Abs.rewind, hA, seen] using this
 
 /-- creation: `DB.NewIterator` -/
 theorem CSim.new (db : DB) (pre : Key) (rev : Bool) :
